@@ -11,6 +11,7 @@ from __future__ import annotations
 import numpy as np
 
 from .. import em, games, seams
+from .. import prelude
 from ..core import Sim
 
 LEVEL = "exploration"
@@ -79,6 +80,7 @@ def run(sim: Sim) -> None:
     src_kind = sim.pick_weighted([("harness", 4), ("registry", 3), ("model", 2), ("unmatched", 1)], "source")
     restore = None
     exact = False
+    prelude.warm_process(sim)
     try:
         with sim.guard("C09.construction_raised"):
             if src_kind in ("harness", "unmatched"):
@@ -125,6 +127,8 @@ def _drive(sim: Sim, env, source, n, comp_name, gap, budget, matched, exact, SOL
     for _ in range(calls):
         valid = [a for a in range(len(env.explorable_coalitions)) if a not in revealed]
         kinds = [("reset", 2), ("probe", 2), ("torn", 1)]
+        if sim.flip(1, 20, "other-use"):
+            prelude.warm_process(sim, label="midrun")
         if valid:
             kinds.append(("step", 8))
         if revealed:
